@@ -94,7 +94,13 @@ func cmdE2E(args []string) error {
 	firstU := fs.Int("first-u", 1, "first universe id")
 	firstH := fs.Int("first-h", 1, "first history id")
 	scen := fs.Int("scenarios", 6, "scenarios per selector kind")
+	mgrScen := fs.Int("mgr-scenarios", 3, "registry-fed scenarios (endpoints fail and recover) per selector kind")
 	fs.Parse(args)
+	// the manager's background status checker / refresher must not tick on their own: the registry-fed scenarios run
+	// the status check themselves
+	if !tars.VerifFailoverQuiesce() {
+		return fmt.Errorf("endpoint manager already running: cannot quiesce its tickers")
+	}
 	rng := rand.New(rand.NewSource(*seed*104729 + 7))
 	rogger.SetLevel(rogger.OFF)
 
@@ -212,13 +218,20 @@ func cmdE2E(args []string) error {
 		hid++
 		hists = append(hists, History{ID: hid, U: uid, Label: "e2e-" + sc.kind, Steps: []Step{st}})
 	}
+	// registry-fed proxies: endpoints are blocked by the manager's status check and recover (e2e_mgr.go)
+	mst, err := mgrScenarios(*seed, rng, *mgrScen, &uid, &hid, &unis, &hists)
+	if err != nil {
+		mst = &mgrStats{Errors: []string{err.Error()}} // the direct scenarios are still written and judged
+	}
 	if err := writeNDJSON(filepath.Join(*out, "e2e_unis.ndjson"), len(unis), func(i int) interface{} { return unis[i] }); err != nil {
 		return err
 	}
 	if err := writeNDJSON(filepath.Join(*out, "e2e_hists.ndjson"), len(hists), func(i int) interface{} { return hists[i] }); err != nil {
 		return err
 	}
-	b, _ := json.Marshal(map[string]interface{}{"servers": nsrv, "scenarios": len(scs), "calls": calls})
+	b, _ := json.Marshal(map[string]interface{}{"servers": nsrv, "scenarios": len(scs), "calls": calls,
+		"registry": map[string]int{"scenarios": mst.Scenarios, "endpoint_blocked": mst.Blocks, "endpoint_recovered": mst.Recoveries,
+			"routing_steps_judged": mst.Steps, "calls": mst.Calls}, "registry_errors": mst.Errors})
 	return os.WriteFile(filepath.Join(*out, "e2e_meta.json"), b, 0o644)
 }
 
